@@ -1947,7 +1947,7 @@ class End_Type_Stmt(EndStmtBase):  # R433
         return EndStmtBase.match("TYPE", Type_Name, string, require_stmt_type=True)
 
 
-class Sequence_Stmt(STRINGBase):  # R434
+class Sequence_Stmt(StmtBase, STRINGBase):  # R434
     """
     ::
 
@@ -2422,7 +2422,7 @@ class Proc_Component_Attr_Spec(STRINGBase):  # R446
         return STRINGBase.match(["POINTER", "PASS", "NOPASS"], string.upper())
 
 
-class Private_Components_Stmt(STRINGBase):  # pylint: disable=invalid-name
+class Private_Components_Stmt(StmtBase, STRINGBase):  # pylint: disable=invalid-name
     """
     Fortran2003 Rule R447::
 
